@@ -276,6 +276,14 @@ func (app *Application) submitEvidence(
 	if b {
 		return roothash.ErrDuplicateEvidence
 	}
+
+	// Create a new transaction context and rollback in case we fail (e.g., evidence for a
+	// node that is not registered), so that a failed transaction leaves no evidence hash
+	// or partial slashing behind.
+	ctx = ctx.NewTransaction()
+	defer ctx.Close()
+	state = roothashState.NewMutableState(ctx.State())
+
 	if err = state.SetEvidenceHash(ctx, rtState.Runtime.ID, round, evHash); err != nil {
 		return err
 	}
@@ -288,6 +296,8 @@ func (app *Application) submitEvidence(
 	); err != nil {
 		return fmt.Errorf("error slashing runtime node: %w", err)
 	}
+
+	ctx.Commit()
 
 	return nil
 }
